@@ -377,10 +377,14 @@ pub fn generate(g: &mut Gen, thorough: bool) {
         let mut resources = vec![];
         for k in 0..len {
             let next = format!("c:n{}", (k + 1) % len);
-            let body = match g.rng.below(3) {
+            // bodies that point back into the cycle several times: instantiation stops at the first step
+            // that fails, which is what keeps the refusal linear in the depth (not 3^depth)
+            let body = match g.rng.below(5) {
                 0 => next.clone(),
                 1 => format!("addone | {next} a=$a(1)"),
-                _ => format!("{next} inv | helmert x=1"),
+                2 => format!("{next} inv | helmert x=1"),
+                3 => format!("{next} | addone | {next} | {next}"),
+                _ => format!("addone | {next} inv | c:n0 | {next} a=2 | c:n{k}"),
             };
             resources.push((format!("c:n{k}"), body));
         }
